@@ -56,9 +56,21 @@ def check(ctx):
     # ---- R-1 ---------------------------------------------------------------------
     sites = [(f, bb) for f in prog.real_fns() for bb, t in f.calls()
              if (t.get("callee") or {}).get("crate") == "ciborium" and (t["callee"].get("name") or "").startswith("from_reader")]
-    ctx.ob("R-1", "single-parser-entry", len(sites) == 1 and sites[0][0].key == READ
-           and (prog.fn(READ).blocks[sites[0][1]]["term"]["callee"]["name"] == "from_reader"),
-           "the only ciborium parser call in the crate is from_reader (default 256-level recursion limit) in read_to_value",
+    def _bounded_parser(f, bb):
+        t = f.blocks[bb]["term"]
+        name = t["callee"]["name"]
+        if name == "from_reader":
+            return True
+        if name == "from_reader_with_recursion_limit" and len(t["args"]) == 2:
+            # an explicit limit: a constant no larger than ciborium's own default
+            from lib.prov import resolve_consts
+            lim = resolve_consts(prog, Prov(f).operand_term(t["args"][1], bb, "term"))
+            while lim[0] == "cast":
+                lim = lim[2]
+            return lim[0] == "const" and isinstance(lim[1], int) and not isinstance(lim[1], bool) and 1 <= lim[1] <= 256
+        return False
+    ctx.ob("R-1", "single-parser-entry", len(sites) == 1 and sites[0][0].key == READ and _bounded_parser(*sites[0]),
+           "the only ciborium parser call in the crate is from_reader (default 256-level recursion limit, or an explicit constant limit <= 256) in read_to_value",
            detail={"sites": ["%s (%s)" % (f.key, f.where(bb)) for f, bb in sites]})
     callers = sorted({f.key for f in prog.real_fns() for bb, t in f.calls() if callee_path(t) == READ})
     # other provided methods of the two serialisation traits (a new byte-level entry point such as `from_maybe_tagged_slice`)
